@@ -572,6 +572,8 @@ pub fn handle(st: &mut State, line: &str) -> String {
             "SE" => crate::stream::encode_1(st, &mut t),
             "SV" => crate::stream::serve(st, &mut t),
             "CL" => crate::client::run(st, &mut t),
+            "TLS" => crate::net::tls_cell(st, &mut t),
+            "NET" => crate::net::scenario(st, &mut t),
             "X" => run_decode(st, &mut t),
             "LEAFDEC" => leaf_dec(&mut t),
             "LEAFENC" => leaf_enc(&mut t),
